@@ -546,7 +546,16 @@ func GenAtom(t *rapid.T, l string, kind string, depth int, o *GenOpts) *Expr {
 				inner.PreferSets = append(inner.PreferSets, symSpec{"peers.roles", "s"}, symSpec{"peers.sa", "s"})
 			}
 		}
+		// a sub-query may itself contain a sub-query (two levels), and its filter may be the constant true
+		if depth-1 > 0 && !o.Exclude["nested-subquery"] && chance(t, l+"_nestedSub", 30) {
+			inner.NoSubQuery = false
+			inner.SelfLinks = o.SelfLinks
+			inner.SubSort = o.SubSort
+		}
 		sub := GenExpr(t, l+"_sub", ls.decl, depth-1, inner)
+		if chance(t, l+"_constSub", 8) {
+			sub = &Expr{Op: "true"}
+		}
 		var subSort []SortKey
 		if len(o.SubSort) > 0 && chance(t, l+"_subsort", 40) {
 			n := rapid.IntRange(1, 2).Draw(t, l+"_nsubsort")
